@@ -76,8 +76,54 @@ def gen_types(rng, tier):
     return T
 
 
-def module_text(types, name="D-RT"):
-    return name + " DEFINITIONS AUTOMATIC TAGS ::= BEGIN\n" + "\n".join(dtype_text(tn, ms) for tn, ms in types) + "\nEND\n"
+# kinds outside the model (no leaf_eqb for them in Rt/CanonicalDefault.v): character and octet strings with a DEFAULT; judged on the C alone
+XKIND = {"ia5": ("IA5String", '"ab"', [b"", b"a", b"ab ", b"abc", b"AB", b"b"]), "oct": ("OCTET STRING", "'ABCD'H", [b"", b"\xab", b"\xab\xcd\x00", b"\xcd\xab"]),
+         "utf": ("UTF8String", '"x"', [b"", b"xy", b"\xc3\xa9"])}
+XDEF = {"ia5": b"ab", "oct": b"\xab\xcd", "utf": b"x"}
+ELIDED_XKINDS = ("ia5",)
+
+
+def xtypes():
+    """extensible SEQUENCEs whose DEFAULT components are strings (root and additions), next to modelled kinds"""
+    z = dmember("z", "bool")
+    return [
+        ("XS", [z, dmember("s", "ia5", XDEF["ia5"], ext=True), dmember("o", "int", optional=True, ext=True), dmember("u", "oct", XDEF["oct"], ext=True)]),
+        ("XR", [dmember("s", "utf", XDEF["utf"]), z, dmember("d", "int", 5, ext=True), dmember("u", "oct", XDEF["oct"], ext=True), dmember("o", "bool", optional=True, ext=True)]),
+    ]
+
+
+def member_text(m):
+    if m["kind"] in XKIND:
+        t, d, _ = XKIND[m["kind"]]
+        return "%s %s%s" % (m["name"], t, (" DEFAULT " + d) if m["default"] is not None else " OPTIONAL" if m["optional"] else "")
+    txt = dtype_text("T", [dict(m, ext=False, grp=None)])
+    return txt[txt.index("{") + 1:txt.rindex("}")].strip()
+
+
+def type_text(tn, ms):
+    parts, in_ext = [], False
+    for m in ms:
+        if m["ext"] and not in_ext:
+            parts.append("...")
+            in_ext = True
+        parts.append(member_text(m))
+    return "  %s ::= SEQUENCE { %s }" % (tn, ", ".join(parts))
+
+
+WRAPPED = ["DS", "AD", "RD", "NR", "A3P1"]
+
+
+def wrapper_texts():
+    """the extensible types where other data FOLLOWS them: element of a SEQUENCE OF, member of a SEQUENCE (misframing shows as a shifted neighbour)"""
+    out = []
+    for tn in WRAPPED:
+        out.append("  L%s ::= SEQUENCE OF %s" % (tn, tn))
+        out.append("  S%s ::= SEQUENCE { h %s, t INTEGER (0..255), g %s OPTIONAL, u BOOLEAN }" % (tn, tn, tn))
+    return out
+
+
+def module_text(types, name="D-RT", extra=()):
+    return name + " DEFINITIONS AUTOMATIC TAGS ::= BEGIN\n" + "\n".join([type_text(tn, ms) for tn, ms in types] + list(extra)) + "\nEND\n"
 
 
 # ---------------------------------------------------------------- values
@@ -130,6 +176,16 @@ def make_value(ms, a, rng):
         s = a.get(i, "non")
         if s == "abs":
             continue
+        if m["kind"] in XKIND:
+            v = m["default"] if s == "dfl" else rng.choice([x for x in XKIND[m["kind"]][2] if x != m["default"]])
+            stored[i] = v
+            body += ctx(i, v)
+            # asn1c generates the DEFAULT comparison for INTEGER, ENUMERATED, BOOLEAN and the known-multiplier character strings only
+            # (asn1c_C.c try_inline_default): an OCTET STRING / UTF8String stored with its DEFAULT value is an ordinary present component
+            # in every syntax (never elided, never filled in) - the round trip closes; that its DER is not canonical is C06's clause
+            if s == "non" or m["kind"] not in ELIDED_XKINDS:
+                canon += ctx(i, v)
+            continue
         v = m["default"] if s == "dfl" else dnondefault(m, rng)
         stored[i] = v
         # TRUE stored with the DEFAULT value is written as 01: the generated comparison of BOOLEAN DEFAULT TRUE knows only the
@@ -168,7 +224,9 @@ def run(run, rng_unused, tier):
     try:
         model = model_build()
         types = gen_types(rng, tier)
-        mod = hand_module("DRT", module_text(types), [tn for tn, _ in types])
+        xts = xtypes()
+        wts = [w.split()[0] for w in wrapper_texts()]
+        mod = hand_module("DRT", module_text(types + xts, extra=wrapper_texts()), [tn for tn, _ in types + xts] + wts)
         build_modules([mod], tag="c01dflt", opts=("-fcompound-names",), moddrv_extra=INC)
     except (BuildError, RuntimeError) as e:
         run.violation("dflt:build", {"what": str(e)[-2500:]}, no_input=True)
@@ -185,7 +243,34 @@ def run(run, rng_unused, tier):
         for a in states_of(ms, rng, cap):
             ber, stored, canon = make_value(ms, a, rng)
             cases.append({"tn": tn, "ms": ms, "ety": ety, "dr": dr, "da": da, "a": a, "ber": ber.hex(), "stored": stored, "canon": canon.hex(),
-                          "vs": dx_model_value(ms, stored)})
+                          "vs": dx_model_value(ms, stored), "model": True})
+    # string DEFAULTs: outside the model, the oracle alone
+    for tn, ms in xts:
+        for a in states_of(ms, rng, cap):
+            ber, stored, canon = make_value(ms, a, rng)
+            cases.append({"tn": tn, "ms": ms, "a": a, "ber": ber.hex(), "stored": stored, "canon": canon.hex(), "vs": repr(stored), "model": False})
+    # the extensible types with data after them (list element, SEQUENCE member): the oracle alone
+    byname = dict(types)
+    nper = 10 if tier == "quick" else 40
+    for tn in WRAPPED:
+        ms = byname[tn]
+        pool = states_of(ms, rng, cap)
+
+        def inner():
+            a = pool[rng.below(len(pool))]
+            ber, stored, canon = make_value(ms, a, rng)
+            return a, ber, canon
+        retag = lambda b, n: bytes([0xa0 | n]) + b[1:]
+        for k in range(nper):
+            els = [inner() for _ in range([0, 1, 2, 3, 2, 3][k % 6])]
+            cases.append({"tn": "L" + tn, "ms": ms, "a": {}, "wrapped": [e[0] for e in els], "ber": uni(16, b"".join(e[1] for e in els), True).hex(), "stored": {},
+                          "canon": uni(16, b"".join(e[2] for e in els), True).hex(), "vs": "-", "model": False})
+            h, g = inner(), (inner() if k % 3 else None)
+            t, u = rng.below(256), rng.chance(1, 2)
+            tl_ = ctx(1, dvalue_octets({"kind": "int"}, t)) + (retag(g[1], 2) if g else b"") + ctx(3, b"\xff" if u else b"\0")
+            tlc = ctx(1, dvalue_octets({"kind": "int"}, t)) + (retag(g[2], 2) if g else b"") + ctx(3, b"\xff" if u else b"\0")
+            cases.append({"tn": "S" + tn, "ms": ms, "a": {}, "wrapped": [h[0]] + ([g[0]] if g else []), "ber": uni(16, retag(h[1], 0) + tl_, True).hex(), "stored": {},
+                          "canon": uni(16, retag(h[2], 0) + tlc, True).hex(), "vs": "-", "model": False})
     # ---- the C: round-trip battery and chains
     pairs = [(x, y) for x in SYNS for y in SYNS if x != y]
     lines, meta = [], []
@@ -205,20 +290,23 @@ def run(run, rng_unused, tier):
     TIMES["c"] = round(time.time() - t1, 1)
     # ---- the model: encoders on the stored structure
     t1 = time.time()
-    ml = ["ddenc %s %s %s %s" % (c["dr"], c["da"], c["ety"], c["vs"]) for c in cases]
+    mcases = [c for c in cases if c["model"]]
+    ml = ["ddenc %s %s %s %s" % (c["dr"], c["da"], c["ety"], c["vs"]) for c in mcases]
     rcm, mo, me = run_lines(model, ml, timeout=900)
     if rcm != 0 or len(mo) != len(ml):
         run.violation("dflt:build", {"what": "model driver failed: rc=%s %s" % (rcm, me[-800:])}, no_input=True)
         return
-    for c, o in zip(cases, mo):
+    for c, o in zip(mcases, mo):
         f = o.split()
         c["m_der"], c["m_uper"], c["m_oer"] = f if len(f) == 3 else ("?", "?", "?")
     declines, decmeta = [], []
 
     def rp(case, **kw):
         c = case
-        d = {"module": mod["text"], "asn1c_options": "-fcompound-names", "type": c["tn"], "model_type": c["ety"], "defaults_root": c["dr"], "defaults_additions": c["da"],
+        d = {"module": mod["text"], "asn1c_options": "-fcompound-names", "type": c["tn"], "model_type": c.get("ety"), "defaults_root": c.get("dr"), "defaults_additions": c.get("da"),
              "stored": c["vs"], "states": {c["ms"][i]["name"]: s for i, s in c["a"].items()}, "canonical_der": c["canon"]}
+        if "wrapped" in c:
+            d["states_of_the_wrapped_values"] = [{c["ms"][i]["name"]: s for i, s in a.items()} for a in c["wrapped"]]
         d.update(kw)
         return d
 
@@ -247,7 +335,7 @@ def run(run, rng_unused, tier):
         if rder != c["canon"]:
             run.violation("dflt:oracle:der", rp(c, what="DER of the stored structure is not the canonical DER of the value (a component at its DEFAULT encoded, or a component lost)",
                                                 command_line=line, c=o))
-        if not pres_agree(rpres, exp_pres.replace("m", "1")):
+        if "wrapped" not in c and not pres_agree(rpres, exp_pres):
             run.violation("dflt:harness:stored", rp(c, what="ber_decode did not store exactly the components spelled out in the input", command_line=line, c=o, expected=exp_pres), no_input=True)
         for part in parts[1:]:
             syn, st = part.split("=", 1)
@@ -258,7 +346,7 @@ def run(run, rng_unused, tier):
                 continue
             enc, rc, cons, pres, der, cmp_ = f
             consumed, produced = (int(x) for x in cons.split("/"))
-            key = {"der": "m_der", "cper": "m_uper", "coer": "m_oer"}.get(syn)
+            key = {"der": "m_der", "cper": "m_uper", "coer": "m_oer"}.get(syn) if c["model"] else None
             if key and enc != c[key]:
                 run.violation("dflt:correspondence:%s" % syn, rp(c, what="C encoder output differs from the model (Rt/CanonicalDefault.v) on this stored structure", syntax=syn,
                                                                 command_line=line, c=part, model=c[key]), no_input=(rc == "OK" and consumed == produced and der == c["canon"]))
